@@ -9,6 +9,7 @@ import (
 
 func init() {
 	zzverif.Register("VerifC11Seq", VerifC11Seq)
+	zzverif.Register("VerifC11Seq2", VerifC11Seq2)
 	zzverif.Register("VerifC11SeqFull", VerifC11SeqFull)
 	zzverif.Register("VerifC11Seq4", VerifC11Seq4)
 	zzverif.Register("VerifC11State", VerifC11State)
@@ -277,6 +278,9 @@ func verifC11Seq(n int, alphabets [][]zOp) {
 
 // quick: Load(f0); any operation; Load or LoadFromContent of any file. 3 files.
 func VerifC11Seq() { verifC11Seq(3, [][]zOp{zOpsLoad, zOpsMid, zOpsLoads}) }
+
+// quick: the same on two files.
+func VerifC11Seq2() { verifC11Seq(2, [][]zOp{zOpsLoad, zOpsMid, zOpsLoads}) }
 
 // thorough: the same with both load forms in every position,
 func VerifC11SeqFull() { verifC11Seq(3, [][]zOp{zOpsLoads, zOpsAll, zOpsLoads}) }
